@@ -7,6 +7,11 @@ ALL = ["C%02d" % i for i in range(1, 21)]
 
 # id -> (category, technique, level text, level note, design ref, engine)
 CHECKS = {
+ "C14": ("model_checking",
+         "stateless DFS over all completion orders of the per-tile tokio tasks and all placements of consumer polls (controlled gates + manual polling of the real operator), exhaustive per (operator, N, window)",
+         "For map_blob_parallel, filter_map_blob_parallel, from_coord_iter_parallel and for_each_buffered downstream, every decision sequence (release of a parked task / consumer poll) for N<=5 (quick) / N<=6 plus selected N<=8 (thorough) items and windows 1,2,3,N is executed on the real operator in a real multi-thread tokio runtime; outputs must be the expected multiset with every result on its own coordinate and buffered chunks a partition. Large streams (10^2..10^4) only under three fixed adversarial release disciplines (labelled, not exhaustive).",
+         "Owns completion order and poll placement only; atomics-level reorderings inside tokio/futures are not explored. The in-tree users (TileConverter::process_stream, from_debug) are not gated; covered functionally by C04/C02. If an implementation does not follow one-task-per-item the controller degrades to a free-running drain, reports exhaustive=false and only the output oracle applies.",
+         "3/C14", "E-order"),
  "C13": ("model_checking",
          "stateless CHESS-style schedule exploration of real OS threads at interposed read/pread64/lseek64 system calls and async-mutex hand-offs, iterative preemption bounding, DFS with prefix replay",
          "Every interleaving of 2 caller threads (and every interleaving with at most 2 preemptions of 3-4 threads) at the system calls the real DataReaderFile / VersaTilesReader / PMTilesReader / TarTilesReader issue on the container file is executed against the real code, and every call must return the bytes it returns alone; deadlock = unfinished threads with none enabled. Right level: the shared state is the kernel file offset and the async mutex, both owned by the explorer.",
@@ -55,6 +60,7 @@ def main():
             "add_only": True,
         },
         "engines": [
+            {"name": "E-order", "path": "harness/src/checks/c14.rs", "serves_properties": ["C14"], "kind_free_text": "completion-order explorer: gates in harness-supplied callbacks, manual poll_next, CPU-affinity-controlled concurrency window, DFS with prefix replay"},
             {"name": "E-sched", "path": "harness/src/bin/vsched.rs", "serves_properties": ["C13"], "kind_free_text": "controlled scheduler for real OS threads via symbol interposition of read/pread64/lseek64; stateless DFS, preemption bounded, replayable schedules"},
             {"name": "E-state", "path": "harness/src/checks/c20.rs, harness/src/checks/c15.rs", "serves_properties": ["C20", "C15"], "kind_free_text": "stateright BFS over real objects, canonical-state dedup"},
         ],
